@@ -13,6 +13,11 @@ CLAIMED = {
    design_ref="5/C16"),
 }
 
+CLAIMED['C14'] = dict(
+   text="Kernel-checked theorems over all well-formed strings (props/C14.v: split_selfies yields exactly the symbols and dots and does not raise, their concatenation is the input, len_selfies = number of items yielded, get_alphabet_from_selfies = symbol set without the dot; the language recogniser used as oracle is sound and complete). Model of selfies_utils.py tied to the code by differential correspondence on in-language and malformed strings (tokens yielded before a ValueError included); encoder outputs are checked to be in the language by the proved recogniser.",
+   technique="Coq proof over a hand-written lexer model + differential correspondence + proved-recogniser oracle",
+   design_ref="5/C14")
+
 PENDING = {}
 for i in range(1, 20):
     pid = 'C%02d' % i
